@@ -7,6 +7,10 @@ import MxModel.Generated.Tables
     look <name> g=u:3,x:9 | p=x,y;a=2,10;r=y:7;c=foo | p=x;a=1;r=;c=
         levels INNERMOST FIRST, `a=-` for a level that is not called
         -> `exp=<res> mx=<res>`,  res = `val N` | `cells` | `unbound`
+    rwo <name> f=c:j;c:n;t:a,b cells=.. refs=.. spaces=.. params=..
+        one OCCURRENCE of a name; `f=` the scopes around it, innermost first, up to the first one with a symbol
+        table: `c:<loop variables>` an inlined comprehension, `t:<names not global there>` a scope with a table
+        -> `self` | `bare`
     refval ty=<exact type> bases=<b1,b2> iface=0|1 valid=0|1 mod=0|1 io=0|1 fin=0|1
         -> `path` | `none` | `literal` | `module` | `io` | `pickle`   (ParentTranslator.ref_value)
 -/
@@ -53,6 +57,15 @@ def step (line : String) : String :=
     (if r then "self " else "bare ") ++
       showTarget (exportedResolve Generated.exportReplaceOrder Generated.exportDummyFor b t n) ++ " " ++
       showTarget (mxResolve b t n)
+  | "rwo" :: n :: rest =>
+    let t : SpaceNames := { cells := names (field "cells=" rest), refs := names (field "refs=" rest),
+                            spaces := names (field "spaces=" rest), params := names (field "params=" rest) }
+    let fs : List Frame := ((field "f=" rest).splitOn ";").filterMap fun fr =>
+      if fr.startsWith "c:" then some (Frame.comp (names (fr.drop 2).toString))
+      else if fr.startsWith "t:" then some (Frame.table (names (fr.drop 2).toString))
+      else none
+    if shouldReplaceAt Generated.exportReplaceOrder Generated.exportDummyFor Generated.pythonBuiltins t fs n
+    then "self" else "bare"
   | "refval" :: rest =>
     let v : PyVal := { ty := field "ty=" rest, bases := names (field "bases=" rest),
                        iface := field "iface=" rest = "1", valid := field "valid=" rest = "1",
